@@ -17,6 +17,7 @@ EXPLANATION = (
     "no store to file_bin is dead and both .bin and .cbin are candidates; (D4, thorough) the repo-wide set of destructive "
     "filesystem call sites equals the frozen owner table. Value transparency, the byte round trip inside mtscomp and the "
     "behaviour under a failure injected at each chunk are NOT decided (they need execution)."
+    " (D6) One indexing surface: every sample selector handed to self._raw in Reader.read / read_sync_digital is the caller's own selector, or a piece [a:b:step] of the caller's slice whose start is congruent to the slice start modulo step (decided on normal forms with mod(x, step) == x)."
 )
 ASSUMPTIONS = [
     "mtscomp.compress(path, out=, outmeta=) writes `out` completely, then `outmeta`, then returns; raises on failure (read in /venv/.../mtscomp.py)",
